@@ -164,7 +164,21 @@ func BuildArgs(r Row) (map[string]any, string, error) {
 	}
 	switch r.Shape {
 	case "minimal":
-	case "proxy_minimal", "proxy_actor":
+	case "proxy_minimal", "proxy_actor", "nodb_minimal":
+	case "nocfg_path_scratch":
+		a["path"] = "${CFG}" // exists, but the server was not given it
+	case "nocfg_path_foreign":
+		a["path"] = "${OTHER}"
+	case "nocfg_path_newdir":
+		a["path"] = "${ROOT}/newdir/Hookaidofile"
+	case "nocfg_path_absent":
+		delete(a, "path")
+	case "nopid_pid_scratch":
+		a["pid_file"] = "${PID}"
+	case "nopid_pid_foreign":
+		a["pid_file"] = "${FPID}"
+	case "nopid_pid_absent":
+		delete(a, "pid_file")
 	case "args_absent", "args_nonobject":
 		a = map[string]any{}
 	case "extra_key":
@@ -276,10 +290,16 @@ func classifyPath(args map[string]any, key, configured string) string {
 	if !ok {
 		return "badtype"
 	}
+	t := strings.TrimSpace(s)
+	if configured == "" { // nothing configured: nothing is the configured path
+		if t == "" {
+			return "none"
+		}
+		return "foreign"
+	}
 	if s == configured {
 		return "configured"
 	}
-	t := strings.TrimSpace(s)
 	if t == "" {
 		return "none"
 	}
@@ -325,10 +345,10 @@ func Classify(tool string, args map[string]any, env *Env, principal string) Real
 	r := Real{Path: "none", Pid: "none", Actor: "absent", Mode: "none"}
 	_, known := DocKeys[tool]
 	if known && hasDocKey(tool, "path") {
-		r.Path = classifyPath(args, "path", env.Cfg)
+		r.Path = classifyPath(args, "path", env.ServerCfg())
 	}
 	if known && hasDocKey(tool, "pid_file") {
-		r.Pid = classifyPath(args, "pid_file", env.PID)
+		r.Pid = classifyPath(args, "pid_file", env.ServerPID())
 	}
 	if raw, ok := args["actor"]; ok {
 		if s, ok := raw.(string); !ok {
